@@ -527,7 +527,7 @@ class GridMesh:
             ]
 
             # combine everything to a field collection
-            return field.__class__(fields, label=field.label)
+            return field.__class__(fields, label=field.label, dtype=field.dtype)
 
         msg = f"Field type {field.__class__.__name__} unsupported"
         raise TypeError(msg)
@@ -649,6 +649,7 @@ class GridMesh:
                 data,
                 label=field.label,
                 labels=field.labels,
+                dtype=field.dtype,
             )
 
         msg = f"Field type {field.__class__.__name__} unsupported"
